@@ -172,6 +172,16 @@ class EntityInfo:
             if hasattr(port, "_cohdl_declared_default"):
                 port._default = port._cohdl_declared_default
 
+    def _restore_port_values(self):
+        # The Python-level value of the persistent Port objects is changed
+        # while a design is built (check of the port connections, assignments
+        # in synthesizable contexts) and is observable in the architecture,
+        # for example in `Signal[T](self.port)`. Start each build with
+        # the declared value so the result does not depend on previous builds.
+        for port in self.ports.values():
+            if hasattr(port, "_cohdl_declared_default"):
+                port._value = type(port)._Wrapped(port._cohdl_declared_default)
+
     def add_port(self, name, port):
         #
         # this method is required for board definition classes
@@ -259,6 +269,7 @@ class Entity(Block):
             # For example when constructing simulation objects.
             info._discard_dynamic_ports()
             info._restore_port_defaults()
+            info._restore_port_values()
 
             global _block_stack
 
